@@ -188,8 +188,10 @@ func TestConcurrent(t *testing.T) {
 				o.kind = "byAddr"
 			case k == 14:
 				o.kind = "pendingAll"
-			case k <= 16:
-				o.kind = "build"
+			case k == 15:
+				o.kind = "byAddr"
+			case k == 16:
+				o.kind, o.txs = "getTx", []*types.Transaction{all[rapid.IntRange(0, len(all)-1).Draw(t, "getIdx")]}
 			case k == 17:
 				o.kind = "priority"
 			default:
@@ -200,9 +202,11 @@ func TestConcurrent(t *testing.T) {
 		var chainOps []chainOp
 		for i := rapid.IntRange(3, 12).Draw(t, "chainOps"); i > 0; i-- {
 			c := chainOp{dt: rapid.IntRange(10, 30).Draw(t, "dt"), yields: rapid.IntRange(0, 5).Draw(t, "chainYields"), jump: rapid.IntRange(0, 2).Draw(t, "jump") == 0}
-			switch k := rapid.IntRange(0, 9).Draw(t, "chainKind"); {
+			switch k := rapid.IntRange(0, 11).Draw(t, "chainKind"); {
 			case k <= 6:
 				c.kind = "block"
+			case k >= 10:
+				c.kind = "build"
 			case k == 7:
 				c.kind = "empty"
 			case k == 8:
@@ -220,7 +224,6 @@ func TestConcurrent(t *testing.T) {
 			syncGen                             int64 // odd while the node syncs
 			panics                              = make(chan string, nG+1)
 			results                             = make([][]submitted, nG)
-			offerErr                            atomic.Value
 			start                               = make(chan struct{})
 			wg                                  sync.WaitGroup
 		)
@@ -281,20 +284,6 @@ func TestConcurrent(t *testing.T) {
 						pool.GetPriorityTransaction()
 					case "validate":
 						pool.Validate(o.txs[0])
-					case "build":
-						l := pool.BuildBlockTransactions()
-						leave()
-						func() {
-							defer func() {
-								if x := recover(); x != nil {
-									if _, ok := x.(deferredStop); !ok {
-										panic(x)
-									}
-								}
-							}()
-							checkOffer(gf, w, r, s0, l, false, func() string { return fmt.Sprintf("(list built by goroutine %d during the concurrent run)", g) })
-						}()
-						continue
 					}
 					leave()
 					gen1 := atomic.LoadInt64(&syncGen)
@@ -309,9 +298,9 @@ func TestConcurrent(t *testing.T) {
 		everInvalid := map[common.Hash]string{}
 		includedAt := map[common.Hash]uint64{}
 		var chainLog []string
-		blocks := 0
+		blocks, builds := 0, 0
 		syncing := false
-		addBlock := func(empty bool, c chainOp) {
+		addBlock := func(empty bool, c chainOp) string {
 			advanceClock(w, r, c.jump, 1, c.dt)
 			var blk *types.Block
 			if !empty && r.CanPropose() {
@@ -320,7 +309,7 @@ func TestConcurrent(t *testing.T) {
 				blk = r.Chain.GenerateEmptyBlock()
 			}
 			if err := r.Chain.AddBlock(blk, nil, collector.NewStatsCollector()); err != nil {
-				gf.Fatalf("harness: own block %s refused under concurrent pool use: %v", sim.BlockDesc(blk), err)
+				return fmt.Sprintf("harness: own block %s refused under concurrent pool use: %v", sim.BlockDesc(blk), err)
 			}
 			blocks++
 			for _, tx := range blk.Body.Transactions {
@@ -334,18 +323,12 @@ func TestConcurrent(t *testing.T) {
 				}
 			}
 			chainLog = append(chainLog, fmt.Sprintf("%s txs=%d period=%s syncing=%v", sim.BlockDesc(blk), len(blk.Body.Transactions), sim.PeriodName(s.State.ValidationPeriod()), syncing))
+			return ""
 		}
 		wg.Add(1)
 		go func() {
 			defer wg.Done()
 			defer guard("chain goroutine")
-			defer func() {
-				if x := recover(); x != nil {
-					if _, ok := x.(deferredStop); !ok {
-						panic(x)
-					}
-				}
-			}()
 			<-start
 			for _, c := range chainOps {
 				for y := 0; y < c.yields; y++ {
@@ -353,10 +336,32 @@ func TestConcurrent(t *testing.T) {
 				}
 				atomic.StoreInt32(&chainBusy, 1)
 				switch c.kind {
-				case "block":
-					addBlock(false, c)
-				case "empty":
-					addBlock(true, c)
+				case "block", "empty":
+					if msg := addBlock(c.kind == "empty", c); msg != "" {
+						gf.set(msg)
+						atomic.StoreInt32(&chainBusy, 0)
+						return
+					}
+				case "build":
+					// the proposer's call: same goroutine as block insertion, concurrent with submissions
+					l := pool.BuildBlockTransactions()
+					stop := false
+					func() {
+						defer func() {
+							if x := recover(); x != nil {
+								if _, ok := x.(deferredStop); !ok {
+									panic(x)
+								}
+								stop = true
+							}
+						}()
+						checkOffer(gf, w, r, r.ReadState(), l, true, func() string { return "(list built on the chain goroutine while submitters run)" })
+					}()
+					builds++
+					if stop {
+						atomic.StoreInt32(&chainBusy, 0)
+						return
+					}
 				case "startSync":
 					if !syncing {
 						atomic.AddInt64(&syncGen, 1)
@@ -402,7 +407,6 @@ func TestConcurrent(t *testing.T) {
 		if msg := gf.first(); msg != "" {
 			t.Fatalf("%s\nchain: %s", msg, strings.Join(chainLog, "; "))
 		}
-		_ = offerErr
 
 		// ---- race reports of this run ----
 		for _, rep := range newRaceReports() {
@@ -413,6 +417,9 @@ func TestConcurrent(t *testing.T) {
 				atomic.AddInt64(&raceUnknown, 1)
 			}
 			evid.Count("race." + rep.Key)
+			if os.Getenv("C14_RACE_SURVEY") != "" {
+				continue
+			}
 			if kf.Report(t, "C14", key, "data race between pool operations:\n%s", rep.Text) {
 				continue
 			}
@@ -425,8 +432,7 @@ func TestConcurrent(t *testing.T) {
 			chainLog = append(chainLog, "StopSync(final)")
 		}
 		// one more block so that the pool has been reset on a head while nothing else runs
-		addBlock(false, chainOp{dt: 15})
-		if msg := gf.first(); msg != "" {
+		if msg := addBlock(false, chainOp{dt: 15}); msg != "" {
 			t.Fatalf("%s\nchain: %s", msg, strings.Join(chainLog, "; "))
 		}
 		s := r.ReadState()
@@ -492,6 +498,7 @@ func TestConcurrent(t *testing.T) {
 		evid.Count("conc.limits." + limits)
 		evid.Count(fmt.Sprintf("conc.max_overlap.%d", maxInside))
 		evid.CountN("conc.blocks", blocks)
+		evid.CountN("conc.builds_during_run", builds)
 		evid.CountN("conc.included_txs", len(includedAt))
 		evid.CountN("conc.admitted_definite", admitted)
 		evid.CountN("conc.kept_at_quiescence", kept)
@@ -534,12 +541,16 @@ type deferredStop struct{}
 
 func (d *deferredFatal) Helper() {}
 
-func (d *deferredFatal) Fatalf(format string, args ...interface{}) {
+func (d *deferredFatal) set(msg string) {
 	d.mu.Lock()
 	if d.msg == "" {
-		d.msg = fmt.Sprintf(format, args...)
+		d.msg = msg
 	}
 	d.mu.Unlock()
+}
+
+func (d *deferredFatal) Fatalf(format string, args ...interface{}) {
+	d.set(fmt.Sprintf(format, args...))
 	panic(deferredStop{})
 }
 
